@@ -9,6 +9,7 @@ from vlib.util import call, expect_eq
 from vlib.props.c01 import parents, ref_parent, versions
 
 PROPERTY_ID = "C02"
+OPTIMIZED = ['refusal']   # clauses run a second time under `python -O` (assert statements stripped)
 RULE = ("parents as in C01; paths of 0..6 indexes in [0, 2^31); public parent obtained three ways (constructor "
         "from the reference point, parse of the reference xpub, parse of the implementation's own xpub); oracle = "
         "the implementation's private derivation with the private part dropped AND an independent CKDpub")
@@ -231,7 +232,7 @@ def clauses():
                gen=lambda tier: st.fixed_dictionaries({"parent": parents(),
                                                        "path": st.lists(S.normal_indexes(), max_size=6)}),
                nontrivial=nt_path, classes=lambda c: ["len=%d" % min(len(c["path"]), 4)],
-               n={"quick": 2000, "thorough": 60000}, shards={"quick": 16, "thorough": 16}),
+               n={"quick": 1100, "thorough": 60000}, shards={"quick": 16, "thorough": 16}),
         Clause("refusal", check_refusal,
                "a hardened index (2^31, 2^31+1, 2^32-1, uniform) directly or inside an index list after a normal "
                "prefix: ckd / derive_path / generate_children on public-only nodes must raise and record no child; "
@@ -242,7 +243,7 @@ def clauses():
                    "prefix": st.lists(S.normal_indexes(), max_size=2),
                    "hard": S.hardened_indexes(), "suffix": st.lists(S.normal_indexes(), max_size=2)}),
                classes=lambda c: ["boundary" if c["hard"] in (H, H + 1, 2 ** 32 - 1) else "uniform"],
-               n={"quick": 1500, "thorough": 40000}, shards={"quick": 16, "thorough": 16}),
+               n={"quick": 900, "thorough": 40000}, shards={"quick": 16, "thorough": 16}),
         Clause("threads", check_threads,
                "2..3 threads derive 1..3 normal children each from one shared public node (or from the two nodes k / n-k) "
                "under the deterministic line-granularity scheduler (bip32.py, keys.py, helper.py traced); every child must "
